@@ -41,13 +41,12 @@ ASSUMPTIONS = [
     'exact-regime hypothesis of the theorems; other inputs are discarded and counted)',
 ]
 OPEN_STATEMENTS = [
-    'givens_reconstruct / square_reconstruct (V Q U^dagger = (D|0) for all isometries, as a Lean theorem about the numeric '
-    'Model): not proved as a whole; covered by the reconstruction oracle.  Proved: the complete schedule characterisation, '
-    'the 2x2 element identities, and that in the exact regime givens_decomposition_square and both stages of '
-    'givens_decomposition annihilate every entry above the diagonal (square_sweep_annihilates_upper_triangle, '
-    'givens_left_stage_zeroes_corner, givens_decomposition_annihilates_upper_part).  Missing for the full theorem: '
-    '(b) upper-triangular + orthonormal rows => diagonal of unit modulus, (c) the bookkeeping '
-    'M\' = V Q G_1^dagger .. G_k^dagger (rotateRows / rotateCols are multiplications by G / G^dagger) and unitarity of V.',
+    'givens_reconstruct / square_reconstruct: PROVED for the numeric Model in the exact regime, up to bookkeeping: for every '
+    'n x n unitary (square_decomposition_diagonalises) and every m x n isometry, m < n (givens_decomposition_diagonalises) '
+    'the matrix obtained by applying the elementary updates is (D | 0) with |D_jj| = 1.  Not formalised: that the recorded '
+    '(i, j, theta, phi) / left_unitary multiply out to U / V as matrix products (each recorded triple reproduces its G: '
+    'givens_matrix_elements_sound), and the case m = n of givens_decomposition (left stage only).  The exact-regime hypothesis '
+    '(SweepExact / LeftExact) is established per input by the harness probe, not proved from the input.',
     'gaussian_reconstruct (V W U^dagger = (0|D)) : not proved; FALSE on the real code when the left N x N block of W is '
     'singular (known finding F11, kernel-checked counterexample on the Model); open for a non-singular left block.',
     'givens_matrix_elements_sound is stated in the exact regime (entries / imaginary parts below EQ_TOLERANCE are exactly 0); '
